@@ -81,8 +81,9 @@ def run_op(contract, opts):
                 o.result = 'unknown'; o.backend = (o.backend or '') + ' candidate model not confirmed end-to-end'
                 continue
             violations.append({'obligation': o.name, 'replay': rp, 'model': model_text(o.model) if o.model is not None else None})
+    cross = crosscheck(w, run, rep, opts) if (opts.get('tier') == 'thorough' or opts.get('crosscheck')) else None
     return {
-        'unit': contract.name, 'kind': 'deductive',
+        'unit': contract.name, 'kind': 'deductive', 'crosscheck': cross,
         'functions': rep.functions,
         'obligations': [ob_dict(o) for o in rep.obligations],
         'undecided': [{'where': w_, 'reason': r} for (w_, r) in rep.undecided] +
@@ -92,3 +93,41 @@ def run_op(contract, opts):
         'trusted': sorted(TRUSTED_USED),
         'stats': {'paths': rep.paths, 'symexec_s': round(rep.symexec_s, 3), 'solve_s': round(rep.solve_s, 3)},
     }
+
+
+def crosscheck(world, run, rep, opts):
+    """Engine <-> CPython cross-check (DESIGN 4.3): for every (case, path) of a handler whose obligations were all proved, a concrete
+    state satisfying the path condition is taken from the solver, the REAL handler is run from that state, and the proved ensures
+    clauses are evaluated on what the real code did.  A clause that is false natively although it was proved means the engine
+    misrepresents the code: a checker bug (exit 3), never a property violation."""
+    import z3
+    from . import replay
+    from .harness import has_quantifier
+    seen = set(); agree = 0; dis = []; skipped = 0
+    if not getattr(run.contract, 'replayable', True) or any(st.dtype in ('mapper', 'set') for cx in getattr(run, 'ctxs', {}).values() for st in cx.states):
+        return {'paths_checked': 0, 'agree': 0, 'disagreements': [], 'skipped': len(getattr(run, 'ctxs', {})), 'note': 'pre-states with containers / maps are not driven natively'}
+    for ob in rep.obligations:
+        if ob.kind != 'ensures' or ob.result != 'proved' or ob.path is None or '/path' not in ob.name:
+            continue
+        key = ob.name.split('/ensures.')[0]
+        if key in seen:
+            continue
+        seen.add(key)
+        s = z3.Solver(); s.set('timeout', 3000)
+        s.add(*[h for h in ob.hyps if not has_quantifier(h)])
+        if s.check() != z3.sat:
+            skipped += 1; continue
+        fake = type(ob)(ob.name, ob.hyps, ob.goal, ob.kind, ob.where, path=ob.path)
+        fake.model = s.model()
+        try:
+            rp = replay.replay_operator(world, run, fake, opts)
+        except Exception as ex:
+            skipped += 1; continue
+        if rp.get('status') == 'reproduced' and not rp.get('note'):
+            # only meaningful when the concrete pre-state satisfies the (quantified) requires too; report with the details
+            dis.append({'path': key, 'replay': rp})
+        elif rp.get('status') == 'not-reproduced':
+            agree += 1
+        else:
+            skipped += 1
+    return {'paths_checked': agree + len(dis), 'agree': agree, 'disagreements': dis[:5], 'skipped': skipped}
